@@ -5,6 +5,7 @@ from . import rule, info
 from ..program import AnalysisError, src, norm, ClassInfo
 from ..util import (is_name, calls_in, callee_qual, deref, ancestors, stmt_of, parent, handler_outcomes,
                     handler_covers, fmt_witness, kwarg)
+from ..pattern import match, matches
 
 info('C13',
      explanation='Static decision of: memo invalidation (every registry method that stores a handler for a '
@@ -136,15 +137,20 @@ def memo_key(ctx):
     ctx.ob(ok, u, 'the memo key is (type(obj), op): %s' % norm(k))
     uses = [n for n in u.own_nodes() if isinstance(n, ast.Subscript) and isinstance(n.value, ast.Attribute) and n.value.attr == '_type_cache']
     ctx.ob(bool(uses) and all(is_name(x.slice, kv) for x in uses), u, 'every memo access uses that key: %s' % [norm(x) for x in uses])
-    # what the memoised computation reads: only obj's type, op, and registry state
-    reads = {n.id for n in u.own_nodes() if isinstance(n, ast.Name) and isinstance(n.ctx, ast.Load)}
-    extra = reads - set(u.all_params) - {kv, 'ret', 'obj_type', 'type_map', 'type_tree', 'closest', 'type', 'False', 'True',
-                                          'KeyError', 'UnregisteredTarget'} - set(u.locals)
-    ctx.ob(not extra, u, 'the lookup depends only on the object, the op and registry state', 'also reads %s' % sorted(extra))
-    # path / raise_exc influence only the failure branch (never the cached value)
+    # what the memoised computation reads: only obj's type, op, and registry state (no module-level variable)
+    p = ctx.program
+    extra = []
+    for n in u.own_nodes():
+        if isinstance(n, ast.Name) and isinstance(n.ctx, ast.Load) and n.id not in u.locals:
+            d = p.resolve_name(u, n.id)
+            if d.kind == 'var':
+                extra.append(n.id)
+    ctx.ob(not extra, u, 'the lookup depends only on the object, the op and registry state', 'also reads module variables %s' % sorted(set(extra)))
     st = [n for n in u.own_nodes() if isinstance(n, ast.Assign) and isinstance(n.targets[0], ast.Subscript)
           and isinstance(n.targets[0].value, ast.Attribute) and n.targets[0].value.attr == '_type_cache']
-    ctx.ob(len(st) == 1 and is_name(st[0].value, 'ret'), u, 'one memo store, of the computed handler: %s' % [norm(s) for s in st])
+    rv = st[0].value.id if len(st) == 1 and is_name(st[0].value) else None
+    exact = [n for n in u.own_nodes() if isinstance(n, ast.Assign) and is_name(n.targets[0], rv) and isinstance(n.value, ast.Subscript)]
+    ctx.ob(len(st) == 1 and rv is not None and len(exact) >= 1, u, 'one memo store, of the computed handler: %s' % [norm(s_) for s_ in st])
     rets = [n for n in u.own_nodes() if isinstance(n, ast.Return)]
     ctx.ob(len(rets) == 1 and isinstance(rets[0].value, ast.Subscript) and is_name(rets[0].value.slice, kv), u,
            'the result is always the memo entry of this key: %s' % [norm(r) for r in rets])
@@ -152,7 +158,7 @@ def memo_key(ctx):
     rs = [n for n in u.own_nodes() if isinstance(n, ast.Raise)]
     ok = len(rs) == 1 and st and cfg.find_path(cfg.node_of(rs[0]), {cfg.node_of(st[0])}) is None
     g = [a for a in ancestors(rs[0]) if isinstance(a, ast.If)] if rs else []
-    ctx.ob(ok and g and norm(g[0].test) == 'ret is False and raise_exc', u, 'an unsupported (type, op) raises instead of being memoised')
+    ctx.ob(ok and bool(g) and matches(g[0].test, '%s is False and raise_exc' % rv), u, 'an unsupported (type, op) raises instead of being memoised')
     ctx.floor(6)
 
 
@@ -160,8 +166,19 @@ def memo_key(ctx):
 def exact_before_fuzzy(ctx):
     u = ctx.unit('core.TargetRegistry.get_handler')
     cfg = ctx.cfg(u)
-    exact = [n for n in cfg.nodes if n.kind == 'stmt' and isinstance(n.ast, ast.Assign) and isinstance(n.ast.value, ast.Subscript)
-             and is_name(n.ast.value.value, 'type_map') and is_name(n.ast.value.slice, 'obj_type')]
+    op, obj = u.params[1], u.params[2]
+    # roles: obj_type = type(obj); type_map = self.get_type_map(op); ret = type_map[obj_type]
+    tv = mv = None
+    for n in u.own_nodes():
+        if isinstance(n, ast.Assign):
+            b = match(n, '$t = type(%s)' % obj)
+            if b:
+                tv = b['t']
+            b = match(n, '$m = self.get_type_map(%s)' % op)
+            if b:
+                mv = b['m']
+    ctx.ob(mv is not None, u, 'handlers come from the map of the requested op')
+    exact = [n for n in cfg.nodes if n.kind == 'stmt' and tv and mv and matches(n.ast, '$r = %s[%s]' % (mv, tv))]
     walk = [n for n in cfg.nodes if n.kind == 'stmt' and any(isinstance(c, ast.Call) and isinstance(c.func, ast.Attribute)
             and c.func.attr == '_get_closest_type' for c in ast.walk(n.ast))]
     ctx.require(len(exact) == 1 and len(walk) == 1, 'get_handler: exact lookup / tree walk not found')
@@ -169,20 +186,17 @@ def exact_before_fuzzy(ctx):
     hs = cfg.handlers_reached_from(exact[0])
     ok = len(hs) == 1 and handler_covers(cfg, hs[0], 'KeyError') and walk[0] in cfg.reachable(hs[0])
     ctx.ob(ok, u, 'the walk happens only when the exact lookup missed (KeyError)')
-    # on an exact hit the walk is not executed
-    p = cfg.find_path(exact[0], set(walk), labels=lambda l: l != 'exc')
-    ctx.ob(p is None, u, 'an exact registration wins without consulting the tree')
-    # closest -> its handler from the same map
-    use = [n for n in u.own_nodes() if isinstance(n, ast.Assign) and isinstance(n.value, ast.Subscript)
-           and is_name(n.value.value, 'type_map') and is_name(n.value.slice, 'closest')]
-    ctx.ob(len(use) == 1, u, 'the closest registered type\'s handler is used: %s' % [norm(x) for x in use])
+    pth = cfg.find_path(exact[0], set(walk), labels=lambda l: l != 'exc')
+    ctx.ob(pth is None, u, 'an exact registration wins without consulting the tree')
+    wst = walk[0].ast
+    cv = wst.targets[0].id if isinstance(wst, ast.Assign) and is_name(wst.targets[0]) else None
+    use = [n for n in u.own_nodes() if isinstance(n, ast.Assign) and cv and matches(n, '$r = %s[%s]' % (mv, cv))]
+    ctx.ob(len(use) == 1, u, "the closest registered type's handler is used: %s" % [norm(x) for x in use])
     c = [x for x in calls_in(u) if isinstance(x.func, ast.Attribute) and x.func.attr == '_get_closest_type']
     tt = kwarg(c[0], 'type_tree', 1)
     d = deref(cfg, cfg.node_containing(c[0]), tt)
-    ok = isinstance(d, ast.Call) and norm(d).startswith('self._op_type_tree.get(op')
-    ctx.ob(ok and is_name(c[0].args[0], u.params[2]), u, 'the walk uses the tree of the requested op: %s' % norm(d))
-    tm = [n for n in u.own_nodes() if isinstance(n, ast.Assign) and is_name(n.targets[0], 'type_map')]
-    ctx.ob(len(tm) == 1 and norm(tm[0].value) == 'self.get_type_map(op)', u, 'handlers come from the map of the requested op')
+    ok = isinstance(d, ast.Call) and norm(d).startswith('self._op_type_tree.get(%s' % op)
+    ctx.ob(ok and is_name(c[0].args[0], obj), u, 'the walk uses the tree of the requested op: %s' % norm(d))
     ctx.floor(6)
 
 
@@ -210,7 +224,9 @@ def isolation(ctx):
     ctx.ob(ok, gu, 'a Glommer binds a registry constructed for it: %s' % [norm(s) for s in st])
     if ok:
         kw = {k.arg: k.value for k in st[0].value.keywords}
-        ctx.ob(is_name(kw.get('register_default_types'), 'register_default_types'), gu, 'register_default_types is passed on')
+        v = kw.get('register_default_types')
+        dd = deref(ctx.cfg(gu), ctx.cfg(gu).node_of(st[0]), v) if v is not None else None
+        ctx.ob(isinstance(dd, ast.Call) and matches(dd, "kwargs.pop('register_default_types', True)"), gu, 'register_default_types is passed on')
     sc = [n for n in gu.own_nodes() if isinstance(n, ast.Assign) and isinstance(n.targets[0], ast.Attribute) and n.targets[0].attr == 'scope']
     ok = len(sc) == 1 and isinstance(sc[0].value, ast.Call) and callee_qual(p, gu, sc[0].value) == 'collections.ChainMap' \
         and isinstance(sc[0].value.args[0], ast.Call) and is_name(sc[0].value.args[0].func, 'dict')
@@ -266,13 +282,17 @@ def first_match_known_finding(ctx):
     first_match = len(iff) == 1 and any(isinstance(s, ast.Return) for s in iff[0].body) and not iff[0].orelse
     # (b) siblings are ordered by registration (appended OrderedDict entries)
     fu = ctx.unit('core.TargetRegistry._register_fuzzy_type')
-    appended = any(isinstance(n, ast.Assign) and isinstance(n.targets[0], ast.Subscript) and is_name(n.targets[0].slice, 'new_type')
+    appended = any(isinstance(n, ast.Assign) and isinstance(n.targets[0], ast.Subscript) and is_name(n.targets[0].slice, fu.params[2])
                    and isinstance(n.value, ast.Call) and is_name(n.value.func, 'OrderedDict') and not n.value.args
                    for n in fu.own_nodes())
     # (c) register() inserts the type into the tree of every known op
     ru = ctx.unit('core.TargetRegistry.register')
-    every_op = any(isinstance(n, ast.For) and '_op_auto_map' in norm(n.iter) and 'new_op_map' in norm(n.iter) for n in ru.own_nodes()) and \
-        any(isinstance(n, ast.For) and is_name(n.iter, 'new_op_map') and any(
+    nmv = None
+    for n in ru.own_nodes():
+        if isinstance(n, ast.Assign) and is_name(n.targets[0]) and matches(n.value, 'dict(%s)' % ru.kwarg):
+            nmv = n.targets[0].id
+    every_op = nmv is not None and any(isinstance(n, ast.For) and '_op_auto_map' in norm(n.iter) and nmv in norm(n.iter) for n in ru.own_nodes()) and \
+        any(isinstance(n, ast.For) and is_name(n.iter, nmv) and any(
             isinstance(c, ast.Call) and isinstance(c.func, ast.Attribute) and c.func.attr == '_register_fuzzy_type'
             for c in ast.walk(n)) for n in ru.own_nodes())
     # (d) predicate types registered by default
@@ -332,16 +352,22 @@ def tree_structure(ctx):
     jumps = [n for n in ast.walk(lp[0]) if isinstance(n, (ast.Break, ast.Continue, ast.Return))]
     ctx.ob(not jumps, fu, 'every sibling is examined (no break / continue / return in the insertion loop)',
            '' if not jumps else 'a type with several registered bases would be attached under the first one only: %s' % [norm(j) for j in jumps])
+    tg = lp[0].target
+    ct, sub = (tg.elts[0].id, tg.elts[1].id) if isinstance(tg, ast.Tuple) and len(tg.elts) == 2 else (None, None)
+    new_type = fu.params[2]
     tests = [norm(n.test) for n in ast.walk(lp[0]) if isinstance(n, ast.If)]
-    ctx.ob('issubclass(cur_type, new_type)' in tests and 'issubclass(new_type, cur_type)' in tests, fu,
+    ctx.ob('issubclass(%s, %s)' % (ct, new_type) in tests and 'issubclass(%s, %s)' % (new_type, ct) in tests, fu,
            'both directions of the subclass relation are handled: %s' % tests)
     # existing subclass moves under the new type
-    pops = [c for c in calls_in(fu) if isinstance(c.func, ast.Attribute) and c.func.attr == 'pop' and is_name(c.func.value, '_type_tree')]
-    ctx.ob(len(pops) == 1 and is_name(pops[0].args[0], 'cur_type'), fu, 'an existing subclass is re-parented under the new type')
+    pops = [c for c in calls_in(fu) if isinstance(c.func, ast.Attribute) and c.func.attr == 'pop' and is_name(c.func.value, fu.params[3])]
+    ctx.ob(len(pops) == 1 and is_name(pops[0].args[0], ct), fu, 'an existing subclass is re-parented under the new type')
     rec = [c for c in calls_in(fu) if isinstance(c.func, ast.Attribute) and c.func.attr == '_register_fuzzy_type']
-    ok = len(rec) == 1 and is_name(rec[0].args[1], 'new_type') and is_name(kwarg(rec[0], '_type_tree', 2), 'sub_tree')
-    ctx.ob(ok, fu, 'a new subclass descends into its base\'s subtree: %s' % [norm(r) for r in rec])
-    tail = [n for n in fu.node.body if isinstance(n, ast.If) and norm(n.test) == 'not registered']
+    ok = len(rec) == 1 and is_name(rec[0].args[1], new_type) and is_name(kwarg(rec[0], '_type_tree', 2), sub)
+    ctx.ob(ok, fu, "a new subclass descends into its base's subtree: %s" % [norm(r) for r in rec])
+    flags = [n.targets[0].id for n in fu.node.body if isinstance(n, ast.Assign) and is_name(n.targets[0])
+             and isinstance(n.value, ast.Constant) and n.value.value is False]
+    tail = [n for n in fu.node.body if isinstance(n, ast.If) and isinstance(n.test, ast.UnaryOp) and isinstance(n.test.op, ast.Not)
+            and isinstance(n.test.operand, ast.Name) and n.test.operand.id in flags]
     ctx.ob(len(tail) == 1, fu, 'an unrelated type becomes a new sibling')
     ctx.floor(10)
 
@@ -351,34 +377,57 @@ def register_stores(ctx):
     p = ctx.program
     u = ctx.unit('core.TargetRegistry.register')
     cfg = ctx.cfg(u)
+    ttype = u.params[1]
     st = [n for n in u.own_nodes() if isinstance(n, ast.Assign) and isinstance(n.targets[0], ast.Subscript)
           and _self_attr_root(n.targets[0]) == '_op_type_map']
-    ok = len(st) == 1 and norm(st[0]) == 'self._op_type_map[op_name][target_type] = handler'
-    ctx.ob(ok, u, 'the handler is stored under (op, exactly the given type): %s' % [norm(s) for s in st])
+    b = match(st[0], 'self._op_type_map[$o][%s] = $h' % ttype) if len(st) == 1 else None
+    ctx.ob(b is not None, u, 'the handler is stored under (op, exactly the given type): %s' % [norm(s_) for s_ in st])
     lp = [a for a in ancestors(st[0]) if isinstance(a, ast.For)] if st else []
-    ctx.ob(bool(lp) and norm(lp[0].iter) == 'new_op_map.items()', u, 'for every op of the registration')
+    nm = None
+    if lp and b:
+        bb = match(lp[0], 'for %s, %s in $m.items():\n    $$body' % (b['o'], b['h']))
+        nm = lp[0].iter.func.value.id if isinstance(lp[0].iter, ast.Call) and isinstance(lp[0].iter.func, ast.Attribute) \
+            and lp[0].iter.func.attr == 'items' and is_name(lp[0].iter.func.value) else None
+        tg = lp[0].target
+        okl = nm is not None and isinstance(tg, ast.Tuple) and [e.id for e in tg.elts] == [b['o'], b['h']]
+    else:
+        okl = False
+    ctx.ob(okl, u, 'for every op of the registration')
+    # nm is the merged op map: starts as dict(kwargs)
+    nmdef = [n for n in u.own_nodes() if isinstance(n, ast.Assign) and is_name(n.targets[0], nm)]
+    ctx.ob(len(nmdef) == 1 and matches(nmdef[0].value, 'dict(%s)' % u.kwarg), u, 'the registration starts from the handlers passed by the caller')
     # explicit handler beats existing beats auto-discovered
-    chain = [n for n in u.own_nodes() if isinstance(n, ast.If) and norm(n.test) == 'op_name in new_op_map']
-    ok = len(chain) == 1 and norm(chain[0].body[0]) == 'handler = new_op_map[op_name]'
+    chain = [n for n in u.own_nodes() if isinstance(n, ast.If) and nm and match(n.test, '$o in %s' % nm) is not None]
+    ok = len(chain) == 1
+    if ok:
+        bo = match(chain[0].test, '$o in %s' % nm)
+        ok = matches(chain[0].body[0], '$h = %s[%s]' % (nm, bo['o']))
     ctx.ob(ok, u, 'a handler passed by the caller is used as given')
     if chain:
         e = chain[0].orelse
-        ok = len(e) == 1 and isinstance(e[0], ast.If) and norm(e[0].test) == 'target_type in cur_type_map' \
-            and norm(e[0].body[0]) == 'handler = cur_type_map[target_type]'
-        ctx.ob(ok, u, 'ops not mentioned keep the type\'s existing handler')
+        ok = len(e) == 1 and isinstance(e[0], ast.If)
+        if ok:
+            b2 = match(e[0].test, '%s in $cm' % ttype)
+            ok = b2 is not None and matches(e[0].body[0], '$h = %s[%s]' % (b2['cm'], ttype))
+        ctx.ob(ok, u, "ops not mentioned keep the type's existing handler")
     # exact registrations stay out of the tree
-    g = [n for n in u.own_nodes() if isinstance(n, ast.If) and norm(n.test) == 'not exact']
+    ex = [n for n in u.own_nodes() if isinstance(n, ast.Assign) and is_name(n.targets[0]) and isinstance(n.value, ast.Call)
+          and matches(n.value, "%s.pop('exact', $$d)" % u.kwarg)]
+    ev = ex[0].targets[0].id if len(ex) == 1 else None
+    ctx.ob(ev is not None, u, "exact is the caller's keyword: %s" % [norm(x) for x in ex])
+    g = [n for n in u.own_nodes() if isinstance(n, ast.If) and ev and matches(n.test, 'not %s' % ev)]
     ok = len(g) == 1 and any(isinstance(c, ast.Call) and isinstance(c.func, ast.Attribute) and c.func.attr == '_register_fuzzy_type'
                              for c in ast.walk(g[0]))
     ctx.ob(ok, u, 'only non-exact registrations enter the subclass tree')
-    ex = [n for n in u.own_nodes() if isinstance(n, ast.Assign) and is_name(n.targets[0], 'exact')]
-    ok = len(ex) == 1 and isinstance(ex[0].value, ast.Call) and norm(ex[0].value.func) == 'kwargs.pop' and ex[0].value.args[0].value == 'exact'
-    ctx.ob(ok, u, 'exact is the caller\'s keyword: %s' % [norm(x) for x in ex])
     gu = ctx.unit('core.Glommer.register')
     cs = [c for c in calls_in(gu) if isinstance(c.func, ast.Attribute) and c.func.attr == 'register']
-    ok = len(cs) == 1 and any(k.arg == 'exact' and is_name(k.value, 'exact') for k in cs[0].keywords)
+    ok = len(cs) == 1
+    if ok:
+        kv = [k.value for k in cs[0].keywords if k.arg == 'exact']
+        dd = deref(ctx.cfg(gu), ctx.cfg(gu).node_containing(cs[0]), kv[0]) if kv else None
+        ok = isinstance(dd, ast.Call) and matches(dd, "%s.pop('exact', False)" % gu.kwarg)
     ctx.ob(ok, gu, 'Glommer.register passes exact on')
     # type check
-    first = u.node.body[0]
-    ctx.ob(isinstance(first, ast.If) and norm(first.test) == 'not isinstance(target_type, type)', u, 'only types can be registered')
+    first = next((n for n in u.node.body if isinstance(n, ast.If)), None)
+    ctx.ob(isinstance(first, ast.If) and norm(first.test) == 'not isinstance(%s, type)' % ttype, u, 'only types can be registered')
     ctx.floor(8)
